@@ -99,6 +99,12 @@ CLAIMS = {
   note="Not under contract (NOT claimed): the EDI readers. 'Results before the fault equal the fault-free run' is the paper corollary of determinism (C15). Assumed: decoder contracts in specs/extern (a decoder error is the source's error or a data error; srcFails bookkeeping).",
   technique="contract-based deductive verification with a ghost failure counter on the source, SMT",
   design_ref="§6 C16"),
+ "C08": dict(
+  category="proof",
+  text="Partial. Input side proved for all token sequences: each JSON token becomes exactly the node the statement describes (addTextChild: a number's text is strconv's shortest 'f' rendering of the float64 token, a boolean's is true/false, a string's is the string, null is empty, with the matching value-type flag; addElementChild: name and container flag; parseVal hands the token on unchanged and names a member element by the key token) and each XML token likewise (addNonTextChild: local name, namespace URI and the prefix bound to it, the xmlns exception, an undeclared namespace is an error; addTextChild: a text node with exactly the given text, never dropped; parse passes every attribute's own name and value and attaches attributes before children). Output side: isChildArray decides array-ness of a JSON node by its type flag alone (F7 fixed).",
+  note="NOT decided: the recursive output functions (nodeToInterface, JSONify2, InnerText) as a whole, XML namespace scoping (finding F16 of the design round: the URI-to-prefix map is document-global), duplicate JSON keys. strconv.FormatFloat/FormatBool, encoding/json and encoding/xml token contents are assumed.",
+  technique="contract-based deductive verification: per-token postconditions and caller-side assertions, SMT",
+  design_ref="§6 C08"),
 }
 
 NOT_BUILT = "check not built yet in this session (planned, see DESIGN.md §6); not claimed until its obligations discharge on the unchanged tree"
